@@ -1,5 +1,6 @@
 import Reduino.Lang.Escape
 import Reduino.Lang.WF
+import Reduino.Lang.Tr2
 import Reduino.Props.C14
 import Reduino.Lemmas.C06
 /-
@@ -40,6 +41,14 @@ theorem reversed_order_wrong :
 /-- declared before use, once, `break` only in loops — for every accepted Closed script of the fragment -/
 theorem tr_wf (p : Prog) (c : CProg) (ht : tr p = .ok c) (hc : Closed p = true) : wf c = true := by
   exact tr_wf' p c ht hc
+
+/-- the same for sketches with hoisted declarations (`tr2`: names first assigned inside a top-level branch or loop body become
+    globals): if every name the script reads is one of the sketch's globals or a `for` variable in scope, and `break` sits in a loop,
+    the sketch is well-formed — every assigned name is declared exactly once at file scope, whatever block first assigned it -/
+theorem tr2_wf (p : Prog) (c : CProg) (ht : tr2 p = .ok c)
+    (hpre : readsOk (c.globals.map (·.1)) false p.pre = true)
+    (hbody : ∀ b, p.body = some b → readsOk (c.globals.map (·.1)) true b = true) : wf c = true := by
+  exact tr2_wf' p c ht hpre hbody
 
 /-- `Closed` is not vacuous and `tr` accepts such programs -/
 example : ∃ p c, Closed p = true ∧ tr p = .ok c ∧ c.globals.length = 2 := by
